@@ -188,15 +188,15 @@ theorem accepted_iff {α : Type} (r : Except Err α) : accepted r = true ↔ ∃
   cases r <;> simp [accepted]
 
 /-- what `swv` returns when the guards pass -/
-def swvResult (batch : List Int) (axes : List Ax) (nb : Int) : View :=
+def swvResult (batch : List Int) (axes : List Ax) : View :=
   let cs := cstrides (batch ++ axes.map (·.x))
   { shape := axes.map grid ++ batch ++ axes.map (·.w)
-    strides := (List.zipWith (· * ·) (cs.drop batch.length) (axes.map (·.s)) ++
-      (cs.take batch.length ++ List.zipWith (· * ·) (cs.drop batch.length) (axes.map (·.d)))).map (nb * ·)
+    strides := List.zipWith (· * ·) (cs.drop batch.length) (axes.map (·.s)) ++
+      (cs.take batch.length ++ List.zipWith (· * ·) (cs.drop batch.length) (axes.map (·.d)))
     writeable := false }
 
-theorem swv_ok {batch : List Int} {axes : List Ax} {nb : Int} {v : View}
-    (h : swv batch axes nb = .ok v) : swvGuard batch axes = none ∧ v = swvResult batch axes nb := by
+theorem swv_ok {batch : List Int} {axes : List Ax} {v : View}
+    (h : swv batch axes = .ok v) : swvGuard batch axes = none ∧ v = swvResult batch axes := by
   unfold swv at h
   split at h
   · cases h
@@ -205,30 +205,28 @@ theorem swv_ok {batch : List Int} {axes : List Ax} {nb : Int} {v : View}
     cases h
     rfl
 
-theorem swv_of_guard {batch : List Int} {axes : List Ax} (nb : Int)
-    (h : swvGuard batch axes = none) : swv batch axes nb = .ok (swvResult batch axes nb) := by
+theorem swv_of_guard {batch : List Int} {axes : List Ax}
+    (h : swvGuard batch axes = none) : swv batch axes = .ok (swvResult batch axes) := by
   unfold swv
   rw [h]
   rfl
 
-theorem swv_accepted_iff (batch : List Int) (axes : List Ax) (nb : Int) :
-    accepted (swv batch axes nb) = true ↔ swvGuard batch axes = none := by
+theorem swv_accepted_iff (batch : List Int) (axes : List Ax) :
+    accepted (swv batch axes) = true ↔ swvGuard batch axes = none := by
   rw [accepted_iff]
   constructor
   · rintro ⟨v, h⟩
     exact (swv_ok h).1
   · intro h
-    exact ⟨_, swv_of_guard nb h⟩
+    exact ⟨_, swv_of_guard h⟩
 
-/-- the offset a view index `(G, N, K)` addresses is `nb` times the row-major offset of
+/-- the offset a view index `(G, N, K)` addresses is the row-major offset of
 `arr[N, G*step + K*dilation]` -/
-theorem swvResult_offset (batch : List Int) (axes : List Ax) (nb : Int) (G N K : List Int)
+theorem swvResult_offset (batch : List Int) (axes : List Ax) (G N K : List Int)
     (hG : G.length = axes.length) (hN : N.length = batch.length) (hK : K.length = axes.length) :
-    dot (G ++ N ++ K) (swvResult batch axes nb).strides =
-      nb * dot (N ++ pos G K axes) (cstrides (batch ++ axes.map (·.x))) := by
+    dot (G ++ N ++ K) (swvResult batch axes).strides =
+      dot (N ++ pos G K axes) (cstrides (batch ++ axes.map (·.x))) := by
   simp only [swvResult]
-  rw [dot_map_mul]
-  congr 1
   have hcs : (cstrides (batch ++ axes.map (·.x))).length = batch.length + axes.length := by
     simp [length_cstrides]
   have hsc : ((cstrides (batch ++ axes.map (·.x))).drop batch.length).length = axes.length := by
@@ -243,6 +241,32 @@ theorem swvResult_offset (batch : List Int) (axes : List Ax) (nb : Int) (G N K :
     rw [← dot_append _ _ (by rw [hfr, hN]), List.take_append_drop]
   rw [hsplit]
   omega
+
+/-- the sequence-level front end accepts iff the window entries are positive, the three sequences have
+the length of `window_shape` (at most `arr.ndim`), and the per-axis call is accepted -/
+theorem swvSeq_accepted_iff (shape window step : List Int) (dil : Option (List Int)) :
+    accepted (swvSeq shape window step dil) = true ↔
+      (∀ w ∈ window, 0 < w) ∧ window.length ≤ shape.length ∧ step.length = window.length ∧
+      (dil.getD (window.map fun _ => 1)).length = window.length ∧
+      accepted (swv (shape.take (shape.length - window.length))
+        (mkAxes (shape.drop (shape.length - window.length)) window step
+          (dil.getD (window.map fun _ => 1)))) = true := by
+  unfold swvSeq
+  by_cases h1 : (window.all fun w => decide (0 < w)) = true
+  · have h1' : ∀ w ∈ window, 0 < w := by simpa using h1
+    by_cases h2 : shape.length < window.length
+    · simp [h1, h2, accepted]; omega
+    · by_cases h3 : step.length = window.length
+      · by_cases h4 : (dil.getD (window.map fun _ => 1)).length = window.length
+        · simp only [h1, h2, h3, h4]
+          simp only [Bool.not_true, Bool.false_eq_true, if_false, ne_eq, not_true_eq_false]
+          constructor
+          · intro h; exact ⟨h1', by omega, trivial, trivial, h⟩
+          · intro h; exact h.2.2.2.2
+        · simp [h1, h2, h3, h4, accepted]
+      · simp [h1, h2, h3, accepted]
+  · have : ¬ ∀ w ∈ window, 0 < w := by simpa using h1
+    simp [h1, accepted, this]
 
 theorem inBox_split : ∀ {A B idx : List Int}, InBox idx (A ++ B) →
     InBox (idx.take A.length) A ∧ InBox (idx.drop A.length) B
@@ -268,9 +292,9 @@ theorem inBox_pos : ∀ (axes : List Ax) (G K : List Int), (∀ a ∈ axes, 0 < 
   | _ :: _, _ :: _, [], _, _, hK => by simp [InBox] at hK
 
 /-- every index of the view addresses a valid index of `arr` -/
-theorem swvResult_inBox (batch : List Int) (axes : List Ax) (nb : Int)
+theorem swvResult_inBox (batch : List Int) (axes : List Ax)
     (hax : ∀ a ∈ axes, 0 < a.s ∧ 0 < a.d) (idx : List Int)
-    (hi : InBox idx (swvResult batch axes nb).shape) :
+    (hi : InBox idx (swvResult batch axes).shape) :
     ∃ G N K, idx = G ++ N ++ K ∧ G.length = axes.length ∧ N.length = batch.length ∧
       K.length = axes.length ∧ InBox (N ++ pos G K axes) (batch ++ axes.map (·.x)) := by
   simp only [swvResult, List.append_assoc] at hi
@@ -332,17 +356,17 @@ theorem convGuard_none_iff (c cw : Int) (axes : List CAx) :
       exact fun a ha => (CAx.tiles_iff a (h a ha).2.2.1).2 ⟨(h a ha).2.2.2.1, (h a ha).2.2.2.2⟩
     simp [e1, hc, e3, e4, e5, e6]
 
-theorem convView_ok {n c cw : Int} {axes : List CAx} {nb : Int} {v : View}
-    (h : convView n c cw axes nb = .ok v) :
-    convGuard c cw axes = none ∧ swv [n, c] (axes.map CAx.padded) (convNb axes nb) = .ok v := by
+theorem convView_ok {n c cw : Int} {axes : List CAx} {v : View}
+    (h : convView n c cw axes = .ok v) :
+    convGuard c cw axes = none ∧ swv [n, c] (axes.map CAx.padded) = .ok v := by
   unfold convView at h
   split at h
   · cases h
   · rename_i hg
     exact ⟨hg, h⟩
 
-theorem convView_accepted_iff (n c cw : Int) (axes : List CAx) (nb : Int) :
-    accepted (convView n c cw axes nb) = true ↔
+theorem convView_accepted_iff (n c cw : Int) (axes : List CAx) :
+    accepted (convView n c cw axes) = true ↔
       axes ≠ [] ∧ c = cw ∧ ∀ a ∈ axes, 0 < a.w ∧ CAxTile a ∧ a.w * a.d ≤ a.x + 2 * a.p := by
   rw [accepted_iff]
   constructor
@@ -362,17 +386,17 @@ theorem convView_accepted_iff (n c cw : Int) (axes : List CAx) (nb : Int) :
       obtain ⟨hw, ht, hf⟩ := h a ha
       exact ⟨hw, by have := ht.2.2.1; simp only [CAx.padded]; omega,
         by have := ht.1; simp only [CAx.padded]; omega, hf⟩
-    refine ⟨swvResult [n, c] (axes.map CAx.padded) (convNb axes nb), ?_⟩
+    refine ⟨swvResult [n, c] (axes.map CAx.padded), ?_⟩
     unfold convView
     rw [hg]
-    exact swv_of_guard _ hs
+    exact swv_of_guard hs
 
 theorem length_of_mem_indices {sh idx : List Int} (h : idx ∈ indices sh) : idx.length = sh.length :=
   (mem_indices h).length
 
 /-- pointwise: the window-view contraction reads exactly the elements the naive formula names -/
-theorem conv_get_eq {n c cw : Int} {axes : List CAx} {nb : Int} {v : View}
-    (h : convView n c cw axes nb = .ok v) (hnb : convNb axes nb = 1) (xmem wmem : Mem)
+theorem conv_get_eq {n c cw : Int} {axes : List CAx} {v : View}
+    (h : convView n c cw axes = .ok v) (xmem wmem : Mem)
     (n' f : Int) (g : List Int) (hg : g.length = axes.length) :
     convImplGet xmem v wmem c (axes.map (·.w)) (n' :: f :: g) =
       convNaiveGet xmem n c axes wmem (axes.map (·.w)) (n' :: f :: g) := by
@@ -391,10 +415,9 @@ theorem conv_get_eq {n c cw : Int} {axes : List CAx} {nb : Int} {v : View}
     congr 1
     simp only [viewGet, arrGet]
     congr 1
-    have := swvResult_offset [n, c] (axes.map CAx.padded) (convNb axes nb) g [n', c'] k
+    have := swvResult_offset [n, c] (axes.map CAx.padded) g [n', c'] k
       (by simpa using hg) rfl (by simpa using hk)
-    rw [hnb] at this ⊢
-    simp only [List.append_assoc, List.cons_append, List.nil_append, Int.one_mul, List.map_map] at this
+    simp only [List.append_assoc, List.cons_append, List.nil_append, List.map_map] at this
     rw [this]
     rfl
 
@@ -431,17 +454,17 @@ theorem poolGuard_none_iff (axes : List PAx) :
       exact fun a ha => (PAx.tiles_iff a (h a ha).2.1).2 ⟨(h a ha).2.2.1, (h a ha).2.2.2⟩
     simp [e1, e2, e3]
 
-theorem poolView_ok {batch : List Int} {axes : List PAx} {nb : Int} {v : View}
-    (h : poolView batch axes nb = .ok v) :
-    poolGuard axes = none ∧ swv batch (axes.map PAx.toAx) nb = .ok v := by
+theorem poolView_ok {batch : List Int} {axes : List PAx} {v : View}
+    (h : poolView batch axes = .ok v) :
+    poolGuard axes = none ∧ swv batch (axes.map PAx.toAx) = .ok v := by
   unfold poolView at h
   split at h
   · cases h
   · rename_i hg
     exact ⟨hg, h⟩
 
-theorem poolView_accepted_iff (batch : List Int) (axes : List PAx) (nb : Int) :
-    accepted (poolView batch axes nb) = true ↔ axes ≠ [] ∧ ∀ a ∈ axes, PAxTile a := by
+theorem poolView_accepted_iff (batch : List Int) (axes : List PAx) :
+    accepted (poolView batch axes) = true ↔ axes ≠ [] ∧ ∀ a ∈ axes, PAxTile a := by
   rw [accepted_iff]
   constructor
   · rintro ⟨v, h⟩
@@ -455,13 +478,13 @@ theorem poolView_accepted_iff (batch : List Int) (axes : List PAx) (nb : Int) :
       obtain ⟨a, ha, rfl⟩ := List.mem_map.1 ha'
       obtain ⟨hw, hs, hx, _⟩ := h a ha
       exact ⟨hw, by simp only [PAx.toAx]; omega, by simp [PAx.toAx], by simp only [PAx.toAx]; omega⟩
-    refine ⟨swvResult batch (axes.map PAx.toAx) nb, ?_⟩
+    refine ⟨swvResult batch (axes.map PAx.toAx), ?_⟩
     unfold poolView
     rw [hg]
-    exact swv_of_guard _ hs
+    exact swv_of_guard hs
 
-theorem pool_get_eq {batch : List Int} {axes : List PAx} {nb : Int} {v : View}
-    (h : poolView batch axes nb = .ok v) (hnb : nb = 1) (mem : Mem)
+theorem pool_get_eq {batch : List Int} {axes : List PAx} {v : View}
+    (h : poolView batch axes = .ok v) (mem : Mem)
     (idx : List Int) (hidx : idx.length = batch.length + axes.length) :
     poolImplGet mem v batch.length (axes.map (·.w)) idx = poolNaiveGet mem batch axes idx := by
   obtain ⟨_, hs⟩ := poolView_ok h
@@ -473,10 +496,9 @@ theorem pool_get_eq {batch : List Int} {axes : List PAx} {nb : Int} {v : View}
   have hlen : k.length = axes.length := by simpa using length_of_mem_indices hk
   simp only [viewGet, arrGet]
   congr 1
-  have := swvResult_offset batch (axes.map PAx.toAx) nb (idx.drop batch.length) (idx.take batch.length) k
+  have := swvResult_offset batch (axes.map PAx.toAx) (idx.drop batch.length) (idx.take batch.length) k
     (by simp [hidx]) (by simp [hidx]) (by simpa using hlen)
-  rw [hnb] at this ⊢
-  simp only [Int.one_mul, List.map_map] at this
+  simp only [List.map_map] at this
   rw [this]
   rfl
 
